@@ -364,7 +364,7 @@ func (e *Engine) verifyFunc(c *Contract) *VC {
 		}
 		v := fr.freshVal(s, o.Type(), "in_"+o.Name())
 		names[o.Name()] = v
-		vc.inputs = append(vc.inputs, InputSym{Name: o.Name(), Sym: v.S, Type: types.TypeString(o.Type(), nil)})
+		e.inputLeaves(s, o.Name(), v, 0, &vc.inputs)
 		fr.bindParam(s, o, v)
 	}
 	if fi.Decl.Recv != nil {
@@ -383,6 +383,18 @@ func (e *Engine) verifyFunc(c *Contract) *VC {
 	}
 	fr.initResults(s, fi.Decl.Type)
 	fr.entry = s.clone()
+	vc.replayFn = fi
+	// package-level variables of the function's package are inputs too (scalars only)
+	if sc := fi.Pkg.Types.Scope(); sc != nil {
+		for _, n := range sc.Names() {
+			if gv, ok := sc.Lookup(n).(*types.Var); ok {
+				if b, ok := gv.Type().Underlying().(*types.Basic); ok && b.Info()&(types.IsInteger|types.IsBoolean) != 0 {
+					hn, hs := e.globalHeap(gv)
+					vc.inputs = append(vc.inputs, InputSym{Name: "global:" + n, Sym: s.heap(hn, hs), Type: gv.Type().String()})
+				}
+			}
+		}
+	}
 	entryNames := names
 	env := &SpecEnv{eng: e, vc: vc, s: s, old: fr.entry, names: entryNames, pkg: fr.pkg, fr: fr}
 	var side []string
@@ -496,7 +508,18 @@ func (e *Engine) verifyLemma(l *Lemma, assumeOnly bool) *VC {
 		}
 		v := fr.freshVal(s, t, "lm_"+b.Name)
 		names[b.Name] = v
-		vc.inputs = append(vc.inputs, InputSym{Name: b.Name, Sym: v.S, Type: types.TypeString(t, nil)})
+		e.inputLeaves(s, b.Name, v, 0, &vc.inputs)
+	}
+	vc.replayLemma = l
+	if pkg != nil {
+		for _, n := range pkg.Scope().Names() {
+			if gv, ok := pkg.Scope().Lookup(n).(*types.Var); ok {
+				if b, ok := gv.Type().Underlying().(*types.Basic); ok && b.Info()&(types.IsInteger|types.IsBoolean) != 0 {
+					hn, hs := e.globalHeap(gv)
+					vc.inputs = append(vc.inputs, InputSym{Name: "global:" + n, Sym: s.heap(hn, hs), Type: gv.Type().String()})
+				}
+			}
+		}
 	}
 	var side []string
 	env := &SpecEnv{eng: e, vc: vc, s: s, old: s, names: names, pkg: pkg, side: &side, fr: fr}
